@@ -179,7 +179,7 @@ def kernel_judge(name, cases, timeout=600, shard=150):
             f.write("Definition cases : list (list N * list N) := [\n")
             f.write(";\n".join("([%s],[%s])" % (";".join(map(str, c)), ";".join(map(str, e))) for c, e in shards[idx]))
             f.write("].\n")
-            f.write("Definition failing := filter (fun '(i, (c, e)) => negb (nlist_eqb (run c) e)) "
+            f.write("Definition failing := filter (fun '(i, (c, e)) => negb (nlist_eqb (judge_run c) e)) "
                     "(combine (seq 0 (length cases)) cases).\n")
             f.write("Eval vm_compute in (length cases, map fst failing).\n")
         rc, out = sh(["timeout", str(timeout), "coqc", "-q", "-noglob", "-Q", "theories", "Spl", "-o",
@@ -345,3 +345,16 @@ def coqchk(ctx):
     ok = rc == 0 and axioms is not None and "<none>" in axioms.group(1)
     ctx.cov["coqchk_ok"] = ok
     return ok
+
+
+def build_server(timeout=1800):
+    """lsp4spl built from /repo's working tree with the `verif` hook. Returns (exe, log)."""
+    tdir = os.path.join(CACHE, "target-lsp")
+    env = dict(ENV)
+    env["CARGO_TARGET_DIR"] = tdir
+    with Lock("cargo-lsp"):
+        rc, out = sh(["timeout", str(timeout), "cargo", "build", "--offline", "-p", "lsp4spl", "--features", "verif"],
+                     cwd=REPO, env=env, timeout=timeout + 30)
+    if rc != 0:
+        return None, out
+    return os.path.join(tdir, "debug", "lsp4spl"), out
